@@ -19,7 +19,8 @@ from harness.swharness import Harness
 
 MAC = {1: "00:00:00:00:00:0a", 2: "00:00:00:00:00:0b"}
 SRC_MAC = "00:00:00:00:00:99"
-SRC_IP = "192.168.7.9"
+SRC = 335609865                # 20.1.0.9 : nw_src of the reference frame (< 2^31: TLC integers)
+SRC_IP = "20.1.0.9"
 H1 = 167837697                 # 10.1.0.1 : nw_dst of the reference frame
 SPORT, DPORT = 1000, 2000      # UDP ports of the reference frame
 SKEW = 1.0 / 1024              # clock skew per tick (exact in binary floating point)
@@ -58,29 +59,60 @@ def sort_exp(beh):
 
 
 # ---- concretisation: spec symbols -> bytes
-def match_bytes(m, junk=0):
-  """Wire form of a spec match.  `junk` fills the nw_dst bits beyond the prefix
-  length, which the standard tells the switch to ignore."""
+SP_DST, SP_SRC, SP_WILD = 1, 2, 4       # bits of the spec's `sp` (FlowTable.tla, "Spelling")
+
+
+def _mix(junk, k):
+  """k-th pseudo-random 32-bit word derived from `junk` (never 0)."""
+  return ((junk + 0x9e3779b9 * (k + 1)) * 2654435761 >> 7) & 0xffffffff | 1
+
+
+def match_bytes(m, junk=0, sp=0):
+  """Wire form of a spec match in the spelling `sp`: which of the bits that the
+  standard tells the switch to ignore are non-zero (taken from `junk`):
+  SP_DST / SP_SRC  the nw_dst / nw_src bits beyond the prefix length,
+  SP_WILD          the values of wildcarded fields, and wildcard counts above 32
+                   for a completely wildcarded address.
+  The exact match has no such bit."""
   if m["ex"] == 1:
     return rb.match(wildcards=0, in_port=m["ip"], dl_src=SRC_MAC,
                     dl_dst=MAC[m["dd"]], dl_vlan=0xffff, dl_vlan_pcp=0,
-                    dl_type=0x800, nw_tos=0, nw_proto=17, nw_src=SRC_IP,
+                    dl_type=0x800, nw_tos=0, nw_proto=17, nw_src=m["sv"],
                     nw_dst=m["nv"], tp_src=SPORT, tp_dst=DPORT)
   w = rb.FW_ALL
   kw = {}
+  wild = bool(sp & SP_WILD)
   if m["ip"]:
     w &= ~rb.FW_IN_PORT
     kw["in_port"] = m["ip"]
+  elif wild:
+    kw["in_port"] = 1 + _mix(junk, 0) % 4
   if m["dd"]:
     w &= ~rb.FW_DL_DST
     kw["dl_dst"] = MAC[m["dd"]]
-  if m["nl"]:
-    w &= ~rb.FW_DL_TYPE
-    kw["dl_type"] = 0x800
-    w &= ~(63 << rb.FW_NW_DST_SHIFT)
-    w |= (32 - m["nl"]) << rb.FW_NW_DST_SHIFT
-    kw["nw_dst"] = ((m["nv"] << (32 - m["nl"])) | (junk & ((1 << (32 - m["nl"])) - 1))) \
-        & 0xffffffff
+  elif wild:
+    kw["dl_dst"] = MAC[1 + _mix(junk, 1) % 2]
+  for k, (ln, val, shift, name, bit) in enumerate((
+      (m["nl"], m["nv"], rb.FW_NW_DST_SHIFT, "nw_dst", SP_DST),
+      (m["sl"], m["sv"], rb.FW_NW_SRC_SHIFT, "nw_src", SP_SRC))):
+    if ln:
+      w &= ~rb.FW_DL_TYPE
+      kw["dl_type"] = 0x800
+      w &= ~(63 << shift)
+      w |= (32 - ln) << shift
+      low = (_mix(junk, 2 + k) & ((1 << (32 - ln)) - 1)) if sp & bit else 0
+      kw[name] = ((val << (32 - ln)) | low) & 0xffffffff
+    elif wild:
+      w &= ~(63 << shift)
+      w |= (32 + _mix(junk, 4 + k) % 32) << shift        # 32..63 all mean "ignore the field"
+      kw[name] = _mix(junk, 6 + k)
+  if wild:
+    if not (m["nl"] or m["sl"]):
+      kw["dl_type"] = (0x800, 0x806, 0x88cc)[_mix(junk, 8) % 3]
+    kw.update(dl_src=MAC[1 + _mix(junk, 9) % 2], dl_vlan=_mix(junk, 10) & 0xfff,
+              dl_vlan_pcp=_mix(junk, 11) & 7, nw_tos=_mix(junk, 12) & 0xfc,
+              nw_proto=(6, 17, 1, 47)[_mix(junk, 13) % 4], tp_src=_mix(junk, 14) & 0xffff,
+              tp_dst=_mix(junk, 15) & 0xffff)
   return rb.match(wildcards=w, **kw)
 
 
@@ -91,7 +123,7 @@ def frame_bytes(x):
   sport = SPORT if x["ref"] == 1 else SPORT + 1
   udp = struct.pack("!HHHH", sport, DPORT, 8 + paylen, 0) + payload
   iph = struct.pack("!BBHHHBBH4s4s", 0x45, 0, 20 + len(udp), 0, 0, 64, 17, 0,
-                    rb.ip(SRC_IP), rb.ip(x["na"]))
+                    rb.ip(x["ns"]), rb.ip(x["na"]))
   iph = iph[:10] + struct.pack("!H", rb.csum(iph)) + iph[12:]
   return rb.eth(MAC[x["dd"]], SRC_MAC, 0x800, iph + udp)
 
@@ -106,12 +138,14 @@ def match_sym(d):
                nw_src=rb.ip(SRC_IP).hex(), nw_dst=rb.ip(H1).hex(), tp_src=SPORT,
                tp_dst=DPORT)
     if all(d[k] == v for k, v in ref.items()):
-      return dict(ip=1, dd=1, nl=32, nv=H1, ex=1)
-    return dict(ip=-1, dd=-1, nl=-1, nv=-1, ex=1)
+      return dict(ip=1, dd=1, sl=32, sv=SRC, nl=32, nv=H1, ex=1)
+    return dict(ip=-1, dd=-1, sl=-1, sv=-1, nl=-1, nv=-1, ex=1)
   bits = (w >> rb.FW_NW_DST_SHIFT) & 63
   nl = 0 if bits >= 32 else 32 - bits
-  ok = (w & _W_REST) == _W_REST and ((w >> rb.FW_NW_SRC_SHIFT) & 63) >= 32
-  if nl:
+  bits = (w >> rb.FW_NW_SRC_SHIFT) & 63
+  sl = 0 if bits >= 32 else 32 - bits
+  ok = (w & _W_REST) == _W_REST
+  if nl or sl:
     ok = ok and not (w & rb.FW_DL_TYPE) and d["dl_type"] == 0x800
   else:
     ok = ok and bool(w & rb.FW_DL_TYPE)
@@ -119,10 +153,12 @@ def match_sym(d):
   dd = 0
   if not (w & rb.FW_DL_DST):
     dd = {rb.mac(v).hex(): k for k, v in MAC.items()}.get(d["dl_dst"], -1)
+  # (the bits beyond a prefix length mean nothing, in this direction either)
   nv = (int(d["nw_dst"], 16) >> (32 - nl)) if nl else 0
+  sv = (int(d["nw_src"], 16) >> (32 - sl)) if sl else 0
   if not ok:
-    return dict(ip=ip, dd=dd, nl=nl, nv=nv, ex=-1, odd="%x" % w)
-  return dict(ip=ip, dd=dd, nl=nl, nv=nv, ex=0)
+    return dict(ip=ip, dd=dd, sl=sl, sv=sv, nl=nl, nv=nv, ex=-1, odd="%x" % w)
+  return dict(ip=ip, dd=dd, sl=sl, sv=sv, nl=nl, nv=nv, ex=0)
 
 
 def acts_sym(alist):
@@ -141,8 +177,9 @@ class PoxRaised(Exception):
 class Adapter(object):
   def __init__(self, max_entries=2, late=True, cap=5, scale=1, prios="plain",
                cookies="plain", hostbits=False):
-    self.hostbits = hostbits      # fill ignored nw_dst bits of every match sent
+    self.hostbits = hostbits      # fill the ignored address bits of every match sent
     self.sent_junk = False
+    self.junk_kinds = set()       # which kinds of ignored bits were non-zero so far
     self.nmatch = 0
     self.late = late
     self.cap = cap
@@ -169,13 +206,24 @@ class Adapter(object):
       return orig(reason, info)
     conn._error_handler = eh
 
-  def _match(self, m):
-    junk = 0
-    if self.hostbits and 0 < m["nl"] < 32 and not m["ex"]:
-      self.nmatch += 1
-      junk = (self.nmatch * 40503 + 0x5a5a5a) & 0xffffffff
+  def _match(self, m, sp=0):
+    """Bytes of the match `m` in the spelling `sp` (every message gets other junk)."""
+    if self.hostbits:
+      sp |= SP_DST | SP_SRC
+    if m["ex"]:
+      return match_bytes(m)
+    self.nmatch += 1
+    junk = (self.nmatch * 40503 + 0x5a5a5a) & 0xffffffff
+    kinds = [n for n, bit, ln in (("nw_dst", SP_DST, m["nl"]), ("nw_src", SP_SRC, m["sl"]))
+             if sp & bit and 0 < ln < 32]
+    if len(kinds) == 2:
+      kinds = ["nw_src+nw_dst"]         # both prefixes of one match
+    if sp & SP_WILD:
+      kinds.append("wildcarded_fields")
+    if kinds:
       self.sent_junk = True
-    return match_bytes(m, junk)
+      self.junk_kinds.update(kinds)
+    return match_bytes(m, junk, sp)
 
   # ---- projection of the real table
   def _internal(self):
@@ -210,9 +258,9 @@ class Adapter(object):
                 g=self._age(f["duration_sec"] + f["duration_nsec"] * 1e-9),
                 n=f["packet_count"], b=f["byte_count"])
 
-  def _flow_stats(self, m, outp):
+  def _flow_stats(self, m, outp, sp=0):
     self.xid += 1
-    body = rb.flow_stats_request_body(self._match(m) if m is not self.ANYM else match_bytes(m),
+    body = rb.flow_stats_request_body(self._match(m, sp) if m is not self.ANYM else match_bytes(m),
                                       0xff, rb.OFPP_NONE if outp == 0 else outp)
     msgs = self._pox(self.h.send, rb.stats_request(rb.ST_FLOW, body, xid=self.xid))
     if len(msgs) != 1 or msgs[0]["type"] != rb.STATS_REPLY or msgs[0]["stype"] != rb.ST_FLOW \
@@ -220,7 +268,7 @@ class Adapter(object):
       return None, [m_["name"] for m_ in msgs]
     return [self._stats_entry(f) for f in msgs[0]["flows"]], None
 
-  ANYM = dict(ip=0, dd=0, nl=0, nv=0, ex=0)
+  ANYM = dict(ip=0, dd=0, sl=0, sv=0, nl=0, nv=0, ex=0)
 
   def _observe(self, msgs, obs):
     """Fill obs with table, messages, emitted ports, invariants."""
@@ -288,7 +336,7 @@ class Adapter(object):
       flags = (rb.FF_SEND_FLOW_REM if f["rem"] else 0) | (rb.FF_CHECK_OVERLAP if f["chk"] else 0) \
           | (rb.FF_EMERG if f["em"] else 0)
       self.xid += 1
-      data = rb.flow_mod(self._match(f["m"]), cookie=self.cookie[f["cookie"]],
+      data = rb.flow_mod(self._match(f["m"], f["sp"]), cookie=self.cookie[f["cookie"]],
                          command=CMDS[f["cmd"]], idle=f["idle"] * self.scale,
                          hard=f["hard"] * self.scale, priority=self.prio[f["prio"]],
                          out_port=rb.OFPP_NONE if f["outp"] == 0 else f["outp"],
@@ -306,7 +354,7 @@ class Adapter(object):
       msgs = self.h.take_msgs()
     elif a == "Stats":
       msgs = []
-      flows, bad = self._flow_stats(args["m"], args["outp"])
+      flows, bad = self._flow_stats(args["m"], args["outp"], args["sp"])
       if flows is None:
         obs["flows"] = bad
       else:
@@ -315,7 +363,7 @@ class Adapter(object):
             dict(f, r=full.get(core.canon([f["m"], f["p"]]), {}).get("r", -1),
                  t=full.get(core.canon([f["m"], f["p"]]), {}).get("t", -1)) for f in flows)
       self.xid += 1
-      body = rb.flow_stats_request_body(self._match(args["m"]), 0xff,
+      body = rb.flow_stats_request_body(self._match(args["m"], args["sp"]), 0xff,
                                         rb.OFPP_NONE if args["outp"] == 0 else args["outp"])
       rep = self._pox(self.h.send, rb.stats_request(rb.ST_AGGREGATE, body, xid=self.xid))
       if len(rep) == 1 and rep[0]["type"] == rb.STATS_REPLY and rep[0]["stype"] == rb.ST_AGGREGATE \
@@ -356,7 +404,8 @@ class Adapter(object):
   def signature(self, st, obs):
     sig = {"action": st["a"], "how": st.get("how", "?")}
     if self.sent_junk:
-      sig["dontcare_bits"] = True       # some prefix sent so far had non-zero ignored bits
+      sig["dontcare_bits"] = True       # some match sent so far had non-zero ignored bits
+      sig["dontcare"] = sorted(self.junk_kinds)
     exp = st["exp"]
     if st["a"] == "FlowMod":
       sig["cmd"] = st["args"]["cmd"]
